@@ -214,6 +214,15 @@ void makeLibs(Ctx &ctx, Src &src, bool withMath, bool withResets)
         }
         UnitsSpec t;
         t.name = u.importRef;
+        if (u.importRef == "shared_units") {
+            // the units the harness imports itself (addImportedEntities): a millisecond, so that mappings to seconds are legal
+            UnitSpec ms;
+            ms.ref = "second";
+            ms.prefix = "milli";
+            t.units.push_back(ms);
+            lib.units.push_back(t);
+            continue;
+        }
         size_t n = src.below(3);
         for (size_t k = 0; k < n; ++k) {
             UnitSpec c;
@@ -305,6 +314,37 @@ void makeLibs(Ctx &ctx, Src &src, bool withMath, bool withResets)
             }
             lib.comps[static_cast<size_t>(t)].vars.push_back(lv);
         }
+        if (src.flip(60)) {
+            // units of the library's own that only a variable of the imported component uses (optionally through another definition)
+            std::string inner;
+            if (src.flip(40)) {
+                UnitsSpec uu;
+                uu.name = "cuu" + std::to_string(lib.units.size()) + "_" + imp.importRef;
+                UnitSpec c;
+                c.ref = src.pick(stdPool);
+                c.exponent = 2.0;
+                uu.units.push_back(c);
+                lib.units.push_back(uu);
+                inner = uu.name;
+            }
+            UnitsSpec cu;
+            cu.name = "cu" + std::to_string(lib.units.size()) + "_" + imp.importRef;
+            UnitSpec c;
+            c.ref = inner.empty() ? src.pick(stdPool) : inner;
+            c.prefix = "milli";
+            cu.units.push_back(c);
+            if (src.flip(40)) {
+                UnitSpec c2;
+                c2.ref = "second";
+                c2.exponent = -1.0;
+                cu.units.push_back(c2);
+            }
+            lib.units.push_back(cu);
+            VarSpec lv;
+            lv.name = "lcv";
+            lv.units = cu.name;
+            lib.comps[static_cast<size_t>(t)].vars.push_back(lv);
+        }
         bool kid = src.flip(50);
         int kidIndex = -1;
         if (kid) {
@@ -377,6 +417,7 @@ struct BuiltAll
     bool importerClean = true;
     std::string importerText;
     std::vector<VariablePtr> keep; // objects made by API-level faults that nothing else owns
+    std::vector<ComponentPtr> keepComponents;
 };
 
 BuiltAll buildAll(const Ctx &ctx, bool checkResolved)
@@ -518,7 +559,7 @@ long dropUnsoundMappings(ModelSpec &m)
 
 // An import element with an imported units definition (used by a new variable) and an imported component that is the
 // encapsulated child of a local component and connected to it through a placeholder variable.
-void addImportedEntities(ModelSpec &m, Src &src)
+void addImportedEntities(ModelSpec &m, Src &src, bool mapImportedUnitsToLocalUnits)
 {
     ImportSpec is;
     is.url = src.flip(50) ? "lib0.cellml" : "sub/lib1.cellml";
@@ -565,6 +606,31 @@ void addImportedEntities(ModelSpec &m, Src &src)
     ms.v2 = 0;
     cs.maps.push_back(ms);
     m.conns.push_back(cs);
+    if (mapImportedUnitsToLocalUnits) {
+        // a variable in the imported units (the library defines them as millisecond, see makeLibs) mapped to a variable in seconds
+        VarSpec x;
+        x.name = "in_imported_units";
+        x.units = "imp_units";
+        x.iface = "public";
+        m.comps[host].vars.push_back(x);
+        CompSpec sib;
+        sib.name = "c04_in_local_units";
+        sib.parent = m.comps[host].parent;
+        VarSpec y;
+        y.name = "in_seconds";
+        y.units = "second";
+        y.iface = "public";
+        sib.vars.push_back(y);
+        m.comps.push_back(sib);
+        ConnSpec c2;
+        c2.c1 = static_cast<int>(host);
+        c2.c2 = static_cast<int>(m.comps.size()) - 1;
+        MapSpec m2;
+        m2.v1 = static_cast<int>(m.comps[host].vars.size()) - 1;
+        m2.v2 = 0;
+        c2.maps.push_back(m2);
+        m.conns.push_back(c2);
+    }
 }
 
 // Further resets (unique orders, variables of the component, small values); mapped variables are preferred so that the
@@ -773,10 +839,57 @@ bool libVarIsMapped(const Ctx &ctx, int li, int ci, const std::string &name)
     return false;
 }
 
+// Is this library component imported (a target) or below one that is?
+bool libCompIsImported(const Ctx &ctx, int li, int ci)
+{
+    const ModelSpec &lib = ctx.libs[static_cast<size_t>(li)];
+    for (int c = ci; c >= 0; c = lib.comps[static_cast<size_t>(c)].parent) {
+        if (libCompIsTarget(ctx, li, c)) {
+            return true;
+        }
+    }
+    return false;
+}
+
+// Is the library units definition used by a variable of an imported component (or of a descendant), directly or through
+// the unit children of a definition that is? Such definitions become part of the importing model like the component does.
+bool libUnitsUsedByImportedVariable(const Ctx &ctx, int li, int ui, int depth = 0)
+{
+    const ModelSpec &lib = ctx.libs[static_cast<size_t>(li)];
+    const std::string &name = lib.units[static_cast<size_t>(ui)].name;
+    for (size_t ci = 0; ci < lib.comps.size(); ++ci) {
+        if (!libCompIsImported(ctx, li, static_cast<int>(ci))) {
+            continue;
+        }
+        for (const auto &v : lib.comps[ci].vars) {
+            if (v.units == name) {
+                return true;
+            }
+        }
+    }
+    if (depth > 8) {
+        return false;
+    }
+    for (size_t o = 0; o < lib.units.size(); ++o) {
+        if (static_cast<int>(o) == ui) {
+            continue;
+        }
+        for (const auto &c : lib.units[o].units) {
+            if (c.ref == name && libUnitsUsedByImportedVariable(ctx, li, static_cast<int>(o), depth + 1)) {
+                return true;
+            }
+        }
+    }
+    return false;
+}
+
 // Is the library units definition validated when the base model is (a target, or referenced from a target's children)?
 bool libUnitsIsReached(const Ctx &ctx, int li, int ui, int depth = 0)
 {
     if (libUnitsIsTarget(ctx, li, ui)) {
+        return true;
+    }
+    if (depth == 0 && libUnitsUsedByImportedVariable(ctx, li, ui)) {
         return true;
     }
     if (depth > 8) {
@@ -794,6 +907,39 @@ bool libUnitsIsReached(const Ctx &ctx, int li, int ui, int depth = 0)
         }
     }
     return false;
+}
+
+std::string libUnitsClass(const Ctx &ctx, int li, int ui)
+{
+    if (libUnitsIsTarget(ctx, li, ui)) {
+        return "lib-imported-units";
+    }
+    // reached through the unit children of an imported units definition?
+    const ModelSpec &lib = ctx.libs[static_cast<size_t>(li)];
+    std::vector<int> todo;
+    std::set<int> seen;
+    for (size_t o = 0; o < lib.units.size(); ++o) {
+        if (libUnitsIsTarget(ctx, li, static_cast<int>(o))) {
+            todo.push_back(static_cast<int>(o));
+        }
+    }
+    while (!todo.empty()) {
+        int o = todo.back();
+        todo.pop_back();
+        if (!seen.insert(o).second) {
+            continue;
+        }
+        if (o == ui) {
+            return "lib-referenced-units";
+        }
+        for (const auto &c : lib.units[static_cast<size_t>(o)].units) {
+            int r = findUnits(lib, c.ref);
+            if (r >= 0) {
+                todo.push_back(r);
+            }
+        }
+    }
+    return "lib-units-of-imported-variable";
 }
 
 std::string cnText(const std::string &text, const std::string &units);
@@ -986,7 +1132,7 @@ void registerIdentFamilies()
                                Site s;
                                s.mi = static_cast<int>(li);
                                s.ui = static_cast<int>(ui);
-                               s.loc = "lib/referenced-by-imported-units";
+                               s.loc = "lib/" + libUnitsClass(ctx, s.mi, s.ui);
                                out.push_back(s);
                            }
                        }
@@ -1001,6 +1147,7 @@ void registerIdentFamilies()
                        // a library definition is only reached through a reference, and a name that is no identifier makes
                        // every reference to it one that is no identifier either (2.6.1.1): the same fault seen from its user
                        ap.accept.insert(R(UNIT_UNITS_REFERENCE));
+                       ap.accept.insert(R(VARIABLE_UNITS_VALUE)); // ... or through the units attribute of an imported variable
                    }
                    return true;
                });
@@ -1062,7 +1209,7 @@ void registerIdentFamilies()
                                s.mi = mi;
                                s.ui = static_cast<int>(ui);
                                s.uk = static_cast<int>(uk);
-                               s.loc = (mi < 0 ? "units-" + posClass(ui, m.units.size()) : std::string(libUnitsIsTarget(ctx, mi, s.ui) ? "lib-imported-units" : "lib-referenced-units")) + "/" + posClass(uk, m.units[ui].units.size());
+                               s.loc = (mi < 0 ? "units-" + posClass(ui, m.units.size()) : libUnitsClass(ctx, mi, s.ui)) + "/" + posClass(uk, m.units[ui].units.size());
                                s.trivial = mi < 0 && ui == 0 && uk == 0;
                                out.push_back(s);
                            }
@@ -1688,6 +1835,14 @@ void registerResetFamilies()
                [](const Ctx &ctx, std::vector<Site> &out) {
                    eachReset(ctx, [&](const Site &s0, const CompSpec &) {
                        const ModelSpec &m = ctx.m(s0.mi);
+                       {
+                           // a variable of another Component object that carries the same name as the reset's component
+                           Site s = s0;
+                           s.a = -2;
+                           s.loc += "/in-same-named-component-object";
+                           s.trivial = false;
+                           out.push_back(s);
+                       }
                        for (size_t o = 0; o < m.comps.size(); ++o) {
                            if (static_cast<int>(o) == s0.ci || m.comps[o].vars.empty() || (s0.mi < 0 && m.comps[o].import >= 0)) {
                                continue;
@@ -1703,6 +1858,30 @@ void registerResetFamilies()
                    });
                },
                [which](Ctx &ctx, const Site &s, uint64_t aux, Applied &ap) {
+                   if (s.a == -2) {
+                       const auto &me = ctx.m(s.mi).comps[static_cast<size_t>(s.ci)];
+                       // the twin's variable is named like a local one, or not (the printed model then does not even parse)
+                       std::string vname = aux % 2 == 0 || me.vars.empty() ? "c04_w" : me.vars[0].name;
+                       ap.desc = resetDesc(ctx, s) + (which == 0 ? ": variable" : ": test_variable") + " := variable " + q(vname) + " of another component object that is also named " + q(me.name) + " (not part of the model)";
+                       ap.accept = {which == 0 ? R(RESET_VARIABLE_REFERENCE) : R(RESET_TEST_VARIABLE_REFERENCE)};
+                       Site site = s;
+                       std::string cname = me.name;
+                       ap.post = [site, which, cname, vname](BuiltAll &b) {
+                           Built &bm = site.mi < 0 ? b.base : b.libs[static_cast<size_t>(site.mi)];
+                           auto twin = Component::create(cname);
+                           auto var = Variable::create(vname);
+                           var->setUnits("second");
+                           twin->addVariable(var);
+                           b.keepComponents.push_back(twin);
+                           auto reset = bm.resets[static_cast<size_t>(site.ci)][static_cast<size_t>(site.k)];
+                           if (which == 0) {
+                               reset->setVariable(var);
+                           } else {
+                               reset->setTestVariable(var);
+                           }
+                       };
+                       return true;
+                   }
                    const auto &other = ctx.m(s.mi).comps[static_cast<size_t>(s.a)];
                    int k = static_cast<int>(aux % other.vars.size());
                    // prefer a variable whose name also exists here: only identity tells them apart
@@ -1897,7 +2076,7 @@ void unitChildSites(const Ctx &ctx, std::vector<Site> &out)
                 s.mi = mi;
                 s.ui = static_cast<int>(ui);
                 s.uk = static_cast<int>(uk);
-                s.loc = (mi < 0 ? "units-" + posClass(ui, m.units.size()) : std::string(libUnitsIsTarget(ctx, mi, s.ui) ? "lib-imported-units" : "lib-referenced-units")) + "/" + posClass(uk, m.units[ui].units.size());
+                s.loc = (mi < 0 ? "units-" + posClass(ui, m.units.size()) : libUnitsClass(ctx, mi, s.ui)) + "/" + posClass(uk, m.units[ui].units.size());
                 s.trivial = mi < 0 && ui == 0 && uk == 0;
                 out.push_back(s);
             }
@@ -2366,29 +2545,36 @@ void registerConnectionFamilies()
            });
     FAMILY("interface:insufficient",
            [](const Ctx &ctx, std::vector<Site> &out) {
-               const ModelSpec &m = ctx.base;
-               for (size_t cn = 0; cn < m.conns.size(); ++cn) {
-                   for (size_t mp = 0; mp < m.conns[cn].maps.size(); ++mp) {
-                       for (int side = 0; side < 2; ++side) {
-                           int ci = side == 0 ? m.conns[cn].c1 : m.conns[cn].c2;
-                           int other = side == 0 ? m.conns[cn].c2 : m.conns[cn].c1;
-                           if (m.comps[static_cast<size_t>(ci)].import >= 0) {
-                               continue;
+               for (int mi = -1; mi < static_cast<int>(ctx.libs.size()); ++mi) {
+                   const ModelSpec &m = ctx.m(mi);
+                   for (size_t cn = 0; cn < m.conns.size(); ++cn) {
+                       // connections of a library model count when both components come in through an import
+                       if (mi >= 0 && (!libCompIsImported(ctx, mi, m.conns[cn].c1) || !libCompIsImported(ctx, mi, m.conns[cn].c2))) {
+                           continue;
+                       }
+                       for (size_t mp = 0; mp < m.conns[cn].maps.size(); ++mp) {
+                           for (int side = 0; side < 2; ++side) {
+                               int ci = side == 0 ? m.conns[cn].c1 : m.conns[cn].c2;
+                               int other = side == 0 ? m.conns[cn].c2 : m.conns[cn].c1;
+                               if (m.comps[static_cast<size_t>(ci)].import >= 0) {
+                                   continue;
+                               }
+                               Site s;
+                               s.mi = mi;
+                               s.cn = static_cast<int>(cn);
+                               s.mp = static_cast<int>(mp);
+                               s.a = side;
+                               s.ci = ci;
+                               s.k = side == 0 ? m.conns[cn].maps[mp].v1 : m.conns[cn].maps[mp].v2;
+                               s.loc = depthClass(ctx, mi, ci) + "/" + ifaceRole(m, ci, other) + (m.comps[static_cast<size_t>(other)].import >= 0 ? "/other-imported" : "");
+                               out.push_back(s);
                            }
-                           Site s;
-                           s.cn = static_cast<int>(cn);
-                           s.mp = static_cast<int>(mp);
-                           s.a = side;
-                           s.ci = ci;
-                           s.k = side == 0 ? m.conns[cn].maps[mp].v1 : m.conns[cn].maps[mp].v2;
-                           s.loc = depthClass(ctx, -1, ci) + "/" + ifaceRole(m, ci, other) + (m.comps[static_cast<size_t>(other)].import >= 0 ? "/other-imported" : "");
-                           out.push_back(s);
                        }
                    }
                }
            },
            [](Ctx &ctx, const Site &s, uint64_t aux, Applied &ap) {
-               ModelSpec &m = ctx.base;
+               ModelSpec &m = ctx.m(s.mi);
                std::string need = requiredInterface(m, s.ci, s.k);
                std::vector<std::string> lacking;
                if (need == "public") {
@@ -2411,6 +2597,28 @@ void registerConnectionFamilies()
            });
     FAMILY("connection:units-mismatch",
            [](const Ctx &ctx, std::vector<Site> &out) {
+               for (size_t li = 0; li < ctx.libs.size(); ++li) {
+                   const ModelSpec &lm = ctx.libs[li];
+                   for (size_t cn = 0; cn < lm.conns.size(); ++cn) {
+                       if (!libCompIsImported(ctx, static_cast<int>(li), lm.conns[cn].c1) || !libCompIsImported(ctx, static_cast<int>(li), lm.conns[cn].c2)) {
+                           continue;
+                       }
+                       for (size_t mp = 0; mp < lm.conns[cn].maps.size(); ++mp) {
+                           for (int side = 0; side < 2; ++side) {
+                               Site s;
+                               s.mi = static_cast<int>(li);
+                               s.cn = static_cast<int>(cn);
+                               s.mp = static_cast<int>(mp);
+                               s.a = side;
+                               s.ci = side == 0 ? lm.conns[cn].c1 : lm.conns[cn].c2;
+                               s.k = side == 0 ? lm.conns[cn].maps[mp].v1 : lm.conns[cn].maps[mp].v2;
+                               int other = side == 0 ? lm.conns[cn].c2 : lm.conns[cn].c1;
+                               s.loc = depthClass(ctx, s.mi, s.ci) + "/" + ifaceRole(lm, s.ci, other) + "/" + posClass(mp, lm.conns[cn].maps.size()) + "-mapping";
+                               out.push_back(s);
+                           }
+                       }
+                   }
+               }
                const ModelSpec &m = ctx.base;
                for (size_t cn = 0; cn < m.conns.size(); ++cn) {
                    const auto &A = m.comps[static_cast<size_t>(m.conns[cn].c1)];
@@ -2451,7 +2659,7 @@ void registerConnectionFamilies()
                }
            },
            [](Ctx &ctx, const Site &s, uint64_t aux, Applied &ap) {
-               ModelSpec &m = ctx.base;
+               ModelSpec &m = ctx.m(s.where == 9 ? -1 : s.mi);
                if (s.where == 9) {
                    static const std::vector<std::pair<std::string, std::string>> dims = {{"second", "metre"}, {"volt", "ampere"}, {"dimensionless", "kilogram"}, {"newton", "joule"}};
                    const auto &d = dims[aux % dims.size()];
@@ -2604,7 +2812,8 @@ void registerCycleFamilies()
                                s.where = 3;
                                s.mi = static_cast<int>(li);
                                s.ui = static_cast<int>(ui);
-                               s.loc = libUnitsIsTarget(ctx, s.mi, s.ui) ? "lib/entered-from-imported-units" : "lib/entered-from-referenced-units";
+                               std::string cls = libUnitsClass(ctx, s.mi, s.ui);
+                               s.loc = cls == "lib-imported-units" ? "lib/entered-from-imported-units" : (cls == "lib-referenced-units" ? "lib/entered-from-referenced-units" : "lib/entered-from-units-of-imported-variable");
                                out.push_back(s);
                            }
                        }
@@ -2842,6 +3051,17 @@ void registerFrags()
     add("bvar:outside-diff", M, [](const FragEnv &e, uint64_t aux, Applied &) { return aux % 2 == 0 ? "<apply><plus/><bvar>" + e.A + "</bvar>" + e.B + "</apply>" : "<apply><sin/><bvar>" + e.A + "</bvar></apply>"; });
     add("bvar:not-second", M, [](const FragEnv &e, uint64_t, Applied &) { return "<apply><diff/>" + e.A + "<bvar>" + e.A + "</bvar></apply>"; });
     add("degree:outside-root", M, [](const FragEnv &e, uint64_t aux, Applied &) { return aux % 2 == 0 ? "<apply><plus/><degree>" + e.B + "</degree>" + e.A + "</apply>" : "<apply><power/><degree>" + e.B + "</degree>" + e.A + "</apply>"; });
+    add("degree:only-sibling-outside-bvar", M, [](const FragEnv &e, uint64_t aux, Applied &ap) {
+        // a degree is a qualifier of root (next to the operand) or a child of bvar; here it stands where the only operand should be
+        static const std::vector<std::string> ops = {"sin", "minus", "plus", "abs", "not", "ln", "floor"};
+        std::string op = ops[aux % ops.size()];
+        ap.desc = " <" + op + "/> applied to nothing but a degree";
+        return "<apply><" + op + "/><degree>" + ((aux >> 8) % 2 == 0 ? e.B : e.A) + "</degree></apply>";
+    });
+    add("degree:root-without-operand", M, [](const FragEnv &e, uint64_t aux, Applied &) {
+        // kept apart from the family above: baseline test CoverageValidator.degreeElementWithOneSibling asserts that this validates
+        return "<apply><root/><degree>" + (aux % 2 == 0 ? e.B : e.A) + "</degree></apply>";
+    });
     add("degree:not-second", M, [](const FragEnv &e, uint64_t, Applied &) { return "<apply><root/>" + e.A + "<degree>" + e.B + "</degree></apply>"; });
     add("degree:empty", M, [](const FragEnv &e, uint64_t, Applied &) { return "<apply><root/><degree/>" + e.A + "</apply>"; });
     add("degree:two-children", M, [](const FragEnv &e, uint64_t, Applied &) { return "<apply><root/><degree>" + e.B + e.B + "</degree>" + e.A + "</apply>"; });
@@ -3129,6 +3349,78 @@ void registerAll()
     registerMathFamilies();
 }
 
+// ------------------------------------------------------------------------------------------------ document route
+
+// The same valid model as a document with the namespace declarations placed in one of the legal ways a hand-written or
+// tool-written file uses, parsed by the strict parser. 0: every math element declares what it uses (what the kit writes);
+// 1: the cellml prefix is declared once, on <model>; 2: MathML elements carry a prefix declared on each math element;
+// 3: that prefix is declared on <model>.
+std::string documentVariant(const std::string &doc, int variant)
+{
+    if (variant == 0) {
+        return doc;
+    }
+    const std::string cellmlDecl = std::string(" xmlns:cellml=\"") + CELLML_NS + "\"";
+    const std::string mathmlDecl = std::string(" xmlns=\"") + MATHML_NS + "\"";
+    std::string out;
+    size_t pos = 0;
+    bool moved = false;
+    while (true) {
+        size_t a = doc.find("<math", pos);
+        if (a == std::string::npos) {
+            out += doc.substr(pos);
+            break;
+        }
+        size_t b = doc.find("</math>", a);
+        if (b == std::string::npos) {
+            out += doc.substr(pos);
+            break;
+        }
+        b += 7;
+        out += doc.substr(pos, a - pos);
+        std::string math = doc.substr(a, b - a);
+        if (variant == 1 || variant == 3) {
+            size_t d = math.find(cellmlDecl);
+            if (d != std::string::npos) {
+                math.erase(d, cellmlDecl.size());
+                moved = true;
+            }
+        }
+        if (variant >= 2) {
+            // qualify every element of the math element with the prefix m
+            std::string q;
+            for (size_t i = 0; i < math.size(); ++i) {
+                q += math[i];
+                if (math[i] == '<' && i + 1 < math.size() && math[i + 1] != '!' && math[i + 1] != '?') {
+                    if (math[i + 1] == '/') {
+                        q += '/';
+                        ++i;
+                    }
+                    q += "m:";
+                }
+            }
+            math = q;
+            size_t d = math.find(mathmlDecl);
+            if (d != std::string::npos) {
+                math.replace(d, mathmlDecl.size(), variant == 2 ? std::string(" xmlns:m=\"") + MATHML_NS + "\"" : std::string());
+            }
+        }
+        out += math;
+        pos = b;
+    }
+    if ((variant == 1 && moved) || variant == 3) {
+        size_t m = out.find("<model");
+        if (m != std::string::npos) {
+            std::string decl = moved ? cellmlDecl : std::string();
+            if (variant == 3) {
+                decl += std::string(" xmlns:m=\"") + MATHML_NS + "\"";
+            }
+            out.insert(m + 6, decl);
+        }
+    }
+    return out;
+}
+
 // ------------------------------------------------------------------------------------------------ the predicate
 
 std::map<std::string, long> gFamilyRuns, gFamilyMisses;
@@ -3170,6 +3462,22 @@ void run(Src &src, Case &c)
     const bool oddHref = flag(4, 6);
     const bool addImports = flag(5, 40);
     const bool addResets = flag(6, 60);
+    const bool documentRoute = flag(7, 25);
+    // One math element with tens of thousands of children (valid, unusual in size): 4 cases in 1000, a validation of it takes
+    // half a minute. The sanitised build only gets a tenth of the size: its workers run with a 1 GiB stack (depth is not the
+    // question there) and would spend minutes on it.
+    const bool longMath = flags != 0 && mix64(flags * 31 + 8) % 1000 < 4 && profile >= 1;
+#if defined(__SANITIZE_ADDRESS__)
+    const int longMathScale = 10;
+#elif defined(__has_feature)
+#    if __has_feature(address_sanitizer)
+    const int longMathScale = 10;
+#    else
+    const int longMathScale = 1;
+#    endif
+#else
+    const int longMathScale = 1;
+#endif
     const uint64_t fseed = src.below(1ULL << 32) + (src.below(1ULL << 32) << 32);
     const size_t maxFaults = 12;
     std::vector<uint64_t> pre;
@@ -3214,7 +3522,11 @@ void run(Src &src, Case &c)
     }
     // Features the kit generator produces rarely are added here, valid by construction, so that the families that need them are reached.
     if (ctx.base.imports.empty() && addImports) {
-        addImportedEntities(ctx.base, late);
+        bool mapImported = wantResolved && flag(9, 30);
+        addImportedEntities(ctx.base, late, mapImported);
+        if (mapImported) {
+            c.cls("base:variable-in-imported-units-mapped-to-compatible-local-units");
+        }
         c.cls("base:imports-added-by-harness");
     }
     if (profile >= 1 && addResets) {
@@ -3234,7 +3546,44 @@ void run(Src &src, Case &c)
     }
 
     // ---- oracle 1: the base model is valid
-    std::string baseText = ctxText(ctx);
+    std::string longMathNote;
+    std::string baseTextBeforeLongMath;
+    if (longMath) {
+        for (auto &comp : ctx.base.comps) {
+            if (comp.import >= 0) {
+                continue;
+            }
+            if (comp.vars.empty()) {
+                VarSpec v;
+                v.name = "c04_x";
+                v.units = "dimensionless";
+                comp.vars.push_back(v);
+            }
+            baseTextBeforeLongMath = ctxText(ctx);
+            const std::string x = "<ci>" + attrEsc(comp.vars[0].name) + "</ci>";
+            const std::string one = cnText("1", "dimensionless");
+            std::string content;
+            bool wide = mix64(flags * 17 + 3) % 2 == 0;
+            if (wide) {
+                // one plus with 40 000 operands
+                content = "<apply><eq/>" + x + "<apply><plus/>";
+                for (int i = 0; i < 40000 / longMathScale; ++i) {
+                    content += one;
+                }
+                content += "</apply></apply>";
+                longMathNote = "component " + q(comp.name) + " additionally has a math element with one equation whose right-hand side is a plus with " + std::to_string(40000 / longMathScale) + " operands";
+            } else {
+                for (int i = 0; i < 20000 / longMathScale; ++i) {
+                    content += "<apply><eq/>" + x + one + "</apply>\n";
+                }
+                longMathNote = "component " + q(comp.name) + " additionally has a math element with " + std::to_string(20000 / longMathScale) + " equations " + comp.vars[0].name + " = 1";
+            }
+            comp.math.push_back(mathBlockRaw(content, 0));
+            c.cls(wide ? "base:math-element-with-40000-operands" : "base:math-element-with-20000-equations");
+            break;
+        }
+    }
+    std::string baseText = longMathNote.empty() ? ctxText(ctx) : baseTextBeforeLongMath + "\n(" + longMathNote + ")\n";
     c.text = "profile " + std::to_string(profile) + (ctx.resolved ? ", imports resolved against in-memory library models" : "") + "\n" + baseText;
     c.weight = baseText.size();
     c.cls("profile=" + std::to_string(profile));
@@ -3251,9 +3600,55 @@ void run(Src &src, Case &c)
             if (!v.errors.empty() && unitsMismatchIsRoundingResidue(v.errors[0].second)) {
                 cls = "MAP_VARIABLES_ELEMENT:units-mismatch-that-is-a-rounding-residue";
             }
+            if (!v.errors.empty() && v.errors[0].first == R(MAP_VARIABLES_ELEMENT) && v.errors[0].second.find("non-matching units") != std::string::npos) {
+                // do the named units include an imported one?
+                for (const auto &u : ctx.base.units) {
+                    if (u.import >= 0 && v.errors[0].second.find("units of '" + u.name + "'") != std::string::npos) {
+                        cls = "MAP_VARIABLES_ELEMENT:units-mismatch-involving-imported-units";
+                    }
+                }
+            }
             c.hash = hashStr(c.text);
             c.fail("C04.false-positive|" + cls, "a valid model is reported with " + std::to_string(v.issues) + " issue(s):\n" + v.text + baseText);
             return;
+        }
+    }
+
+    // ---- oracle 1 again, for the same model read from a document (namespace declarations placed in other legal ways)
+    if (documentRoute && !ctx.resolved && longMathNote.empty()) {
+        bool hasMath = false;
+        for (const auto &comp : ctx.base.comps) {
+            hasMath = hasMath || !comp.math.empty() || !comp.resets.empty();
+        }
+        int variant = hasMath ? static_cast<int>(mix64(flags * 7 + 11) % 4) : 0;
+        static const char *variantName[] = {"declarations-on-every-math-element", "cellml-prefix-declared-on-model", "prefixed-mathml-declared-on-math", "prefixed-mathml-declared-on-model"};
+        XmlOptions xo;
+        xo.layout = static_cast<uint32_t>(mix64(flags * 13 + 5) % 5);
+        std::string doc = documentVariant(writeXml(ctx.base, xo), variant);
+        auto parser = Parser::create(true);
+        ModelPtr parsed = parser->parseModel(doc);
+        c.cls(std::string("document:") + variantName[variant]);
+        if (parser->issueCount() != 0 || parsed == nullptr) {
+            // not this property's subject (C01 / C02 judge the parser); without a clean parse there is nothing to validate
+            c.count(std::string("document:parser-reports-issues:") + variantName[variant]);
+        } else {
+            Verdict v = validate(parsed);
+            c.count("validations");
+            if (!v.monitor.empty()) {
+                c.alsoFailed.emplace_back("C15.monitor|Validator|" + v.monitor.substr(0, v.monitor.find('|')), v.monitor);
+            }
+            if (v.issues != 0) {
+                // which math the issues sit in: the text of the issues names reset ... / component math only loosely, so the
+                // localisation is by what the model has
+                bool anyReset = false;
+                for (const auto &comp : ctx.base.comps) {
+                    anyReset = anyReset || !comp.resets.empty();
+                }
+                std::string where = variant >= 2 ? "any-math" : (anyReset ? "model-with-reset-math" : "component-math-only");
+                std::string cls = v.errors.empty() ? "non-error-issue" : issueClass(v.errors[0].first, v.errors[0].second);
+                c.alsoFailed.emplace_back(std::string("C04.false-positive-on-parsed-document|") + variantName[variant] + "|" + where + "|" + cls.substr(0, cls.find(':')),
+                                          "a valid document (strict parser: no issue) is reported with " + std::to_string(v.issues) + " issue(s):\n" + v.text + doc.substr(0, 6000));
+            }
         }
     }
 
@@ -3287,7 +3682,9 @@ void run(Src &src, Case &c)
         }
         return -1;
     };
-    if (sweep) {
+    if (!longMathNote.empty()) {
+        c.cls("mode=base-model-only");
+    } else if (sweep) {
         std::vector<Site> sites;
         int fi = pickFamily(pre[0], sites);
         if (fi >= 0) {
